@@ -37,6 +37,26 @@ def budget(tier):
     return {"cases": 1200000, "workers": 16, "watchdog_s": 3600, "budget_s": 600}
 
 
+def directed_union_window(rng, g):
+    """chain -> sort on plain columns -> slice -> projection that drops a sort column (optionally a
+    further deduplication / selection): the window has to be cut in the sort's order."""
+    cols = sorted(rng.sample("abcd", rng.randint(2, 3)))
+    a = g.leaf("sql", want_cols=cols, allow_special=False)
+    b2 = g.leaf("sql", want_cols=sorted(a[1]), allow_special=False)
+    st = (["chain", a[0], b2[0]], a[1], "sql") if b2[1] == a[1] else a
+    cl = sorted(st[1])
+    terms = [[["ref", c], rng.random() < 0.5] for c in cl]  # total order, so the window is determined
+    rng.shuffle(terms)
+    st = (["sort", st[0], terms, None], st[1], "sql")
+    start = rng.choice([0, 1, 2])
+    st = (["slice", st[0], start, start + rng.choice([1, 2, 3])], st[1], "sql")
+    keep = [c for c in cl if c != terms[0][0][1]] if rng.random() < 0.8 else cl[:1]
+    st = (["proj", st[0], sorted(keep), None], frozenset(keep), "sql")
+    if rng.random() < 0.3:
+        st = g.unary(st, rng.choice(["sel", "dedup", "slice"])) or st
+    return st
+
+
 def gen_case(rng, tier):
     cfg = gen.Cfg(
         engines=("sql",),
@@ -53,6 +73,8 @@ def gen_case(rng, tier):
             for _ in range(rng.randint(0, 2)):
                 state = g.unary(state, g.pick_op(("calc", "proj", "sel", "dedup", "sort", "slice"))) or state
             return gen.case_from(g, state)
+    if rng.random() < 0.04:
+        return gen.case_from(g, directed_union_window(rng, g))
     return gen.case_from(g, g.tree())
 
 
